@@ -412,6 +412,20 @@ class Executor:
             txt = ast.unparse(v.func)
             if txt == "print" or any(txt.startswith(p) for p in DROPPED_CALL_PREFIXES):
                 self.dropped.add("call to %s (assumed effect-free)" % txt.split("(")[0])
+                # the call itself is dropped, but its arguments are still evaluated by Python: a name that is unbound here raises before the call
+                bound = set()
+                arg_nodes = [n for a_ in list(v.args) + [k.value for k in v.keywords] for n in ast.walk(a_)]
+                for sub in arg_nodes:
+                    if isinstance(sub, ast.Lambda):
+                        bound |= {a.arg for a in sub.args.args}
+                    if isinstance(sub, ast.comprehension):
+                        bound |= {n.id for n in ast.walk(sub.target) if isinstance(n, ast.Name)}
+                for sub in arg_nodes:
+                    if isinstance(sub, ast.Name) and isinstance(sub.ctx, ast.Load) and sub.id not in bound and sub.id != "self":
+                        try:
+                            self.e_Name(sub, env)
+                        except OutOfSubset:
+                            pass        # a global / builtin the prelude does not know: not a local of this function
                 return
         self.eval(v, env)
 
@@ -1535,6 +1549,10 @@ class Executor:
         result = c.result(S, cenv) if hasattr(c, "result") else None
         for item in c.post(S, old, cenv, result):
             cl = clause(item)
+            if isinstance(cl.expr, bool) and not cl.expr:
+                # a structural clause of the callee's contract evaluates to False on the caller-side result shape: assuming it would silently end
+                # the path (everything after the call would be vacuously fine).  The sidecar is inconsistent here -> undecided, never a pass.
+                raise OutOfSubset("postcondition %s of %s is structurally false on the caller-side result shape (sidecar inconsistency)" % (cl.name, c.qualname), node)
             self.assume(cl.expr, "%s/post#%s" % (tag, cl.name))
         self.assumed.append("contract of %s assumed at call site L%d" % (c.qualname, node.lineno))
         return result
